@@ -102,4 +102,10 @@ AbsDiff(a, b) == IF a >= b THEN a - b ELSE b - a
 Envelope(n, est) == /\ (n = 0 => est = 0)
                     /\ (n >= 100 => 5 * AbsDiff(est, n) <= 2 * n)
 EstRange(n, top) == {e \in 0..top : Envelope(n, e)}
+
+(* The estimate depends on the register state only: two sketches with the same registers -   *)
+(* however they were obtained (adds, merges, clear, hex import) - give the same estimate, and *)
+(* the all-zero state gives 0.  (r1, e1), (r2, e2) are observed (registers, estimate) pairs.  *)
+SameRegistersSameEstimate(r1, e1, r2, e2) == (r1 = r2) => (e1 = e2)
+EmptyEstimatesZero(r, e) == (r = Empty) => (e = 0)
 =============================================================================
